@@ -93,7 +93,7 @@ Proof. exact missing_fragment_example. Qed.
 From CGV Require Import Base.NxGraph Reader.ReaderImpl Reader.ReaderLemmas Reader.ReaderSim Reader.ReaderRing
      Resolve.GraphOps Resolve.Pipeline Frag.NDict Frag.StripImpl Frag.FragText
      Reader.Grammar Reader.Lin Reader.ReaderCheck Reader.ReaderUnit
-     Dialect.ReaderFaults Dialect.FragAnnot Dialect.CopyAnnot Dialect.ResolveFaults Dialect.MachineFaults.
+     Dialect.ReaderFaults Dialect.FragAnnot Dialect.CopyAnnot Dialect.ResolveFaults Dialect.MachineFaults Dialect.MachineInject.
 
 (** ---- the real reader model (Reader/ReaderImpl.v) ---- *)
 (** an error inside the loop iteration of ANY node (= any reachable loop state) is the result *)
@@ -168,6 +168,46 @@ Theorem C20_machine_dangling_rejected : forall fo m ts, Nat.odd (ring_occurrence
   (forall g, m_finish (m_run fo ts m_init) <> Ok g) /\
   (forall x, m_run fo ts m_init = Ok x -> m_finish (m_run fo ts m_init) = Err (ESyntax (S "dangling"))).
 Proof. exact machine_dangling_rejected. Qed.
+(** faults INJECTED into a token list that runs (= a valid string): nothing is assumed about the state any more -
+    the hypotheses of the three theorems above follow from validity.  A refused node text in the place of any node; a
+    fresh ring marker after any node; a ring bond between two chain neighbours anywhere (also inside branches and in
+    the longhand tokens of multiplied units) *)
+Theorem C20_injected_annotation_error : forall fo ts1 nm n ts2 y nm' e,
+  m_run fo (ts1 ++ TNode nm n :: ts2) m_init = Ok y -> parse_graph_base_node fo nm' = Err e ->
+  m_finish (m_run fo (ts1 ++ TNode nm' n :: ts2) m_init) = Err e.
+Proof. exact injected_annotation_error. Qed.
+Theorem C20_injected_dangling_rejected : forall fo ts1 ts2 o m y,
+  m_run fo (ts1 ++ ts2) m_init = Ok y -> ring_occurrences m (ts1 ++ ts2) = 0%nat ->
+  (forall x1, m_run fo ts1 m_init = Ok x1 -> m_prev x1 <> None) ->
+  m_finish (m_run fo (ts1 ++ TRing o m :: ts2) m_init) = Err (ESyntax (S "dangling")).
+Proof. exact injected_dangling_rejected. Qed.
+Theorem C20_injected_duplicate_neighbours : forall fo ts1 nu o m syms nv o' ts2 x1 au av,
+  m_run fo ts1 m_init = Ok x1 -> ring_occurrences m ts1 = 0%nat ->
+  parse_graph_base_node fo nu = Ok au -> parse_graph_base_node fo nv = Ok av ->
+  Forall (fun t => match t with TSym _ => True | _ => False end) syms ->
+  m_finish (m_run fo (ts1 ++ TNode nu 1 :: TRing o m :: syms ++ TNode nv 1 :: TRing o' m :: ts2) m_init)
+  = Err (ESyntax (S "double")).
+Proof. exact injected_duplicate_neighbours. Qed.
+(** ... and on ReaderImpl.read_cgsmiles for grammar strings *)
+Theorem C20_grammar_injected_annotation_error : forall fo braces a, Grammar.wf fo a = true -> has_branch_mult a = false ->
+  class_C04 braces a = 0%nat -> forall ts1 nm n ts2 y nm' e,
+  m_run fo (ts1 ++ TNode nm n :: ts2) m_init = Ok y -> toks (expand_branches a) = ts1 ++ TNode nm' n :: ts2 ->
+  parse_graph_base_node fo nm' = Err e -> read_cgsmiles fo (print braces a) = Err e.
+Proof. exact grammar_injected_annotation_error. Qed.
+Theorem C20_grammar_injected_dangling : forall fo braces a, Grammar.wf fo a = true -> has_branch_mult a = false ->
+  class_C04 braces a = 0%nat -> forall ts1 ts2 o m y,
+  m_run fo (ts1 ++ ts2) m_init = Ok y -> ring_occurrences m (ts1 ++ ts2) = 0%nat ->
+  (forall x1, m_run fo ts1 m_init = Ok x1 -> m_prev x1 <> None) -> toks (expand_branches a) = ts1 ++ TRing o m :: ts2 ->
+  read_cgsmiles fo (print braces a) = Err (ESyntax (S "dangling")).
+Proof. exact grammar_injected_dangling. Qed.
+Theorem C20_grammar_injected_duplicate : forall fo braces a, Grammar.wf fo a = true -> has_branch_mult a = false ->
+  class_C04 braces a = 0%nat -> forall ts1 nu o m syms nv o' ts2 x1 au av,
+  m_run fo ts1 m_init = Ok x1 -> ring_occurrences m ts1 = 0%nat ->
+  parse_graph_base_node fo nu = Ok au -> parse_graph_base_node fo nv = Ok av ->
+  Forall (fun t => match t with TSym _ => True | _ => False end) syms ->
+  toks (expand_branches a) = ts1 ++ TNode nu 1 :: TRing o m :: syms ++ TNode nv 1 :: TRing o' m :: ts2 ->
+  read_cgsmiles fo (print braces a) = Err (ESyntax (S "double")).
+Proof. exact grammar_injected_duplicate. Qed.
 Theorem C20_flat_read_is_machine : forall fo l, lins_ok fo l = true ->
   read_cgsmiles fo ("{"%char :: lins_str l ++ ["}"%char]) = m_finish (m_run fo (lins_toks l) m_init).
 Proof. exact flat_read_is_machine. Qed.
@@ -235,3 +275,8 @@ Print Assumptions C20_grammar_annotation_error.
 Print Assumptions C20_grammar_duplicate_rejected.
 Print Assumptions C20_grammar_dangling_rejected.
 Print Assumptions C20_units_read_is_machine.
+Print Assumptions C20_injected_annotation_error.
+Print Assumptions C20_injected_dangling_rejected.
+Print Assumptions C20_injected_duplicate_neighbours.
+Print Assumptions C20_grammar_injected_dangling.
+Print Assumptions C20_grammar_injected_duplicate.
